@@ -49,6 +49,8 @@ MUTS = [
  ("dummy subgraph: every body output typed like the first one", S,
   "        value_infos.append(arr.unwrap_type()._to_onnx_value_info(outer))\n        out = f\"__dummy_output{i}\"\n        outputs.append(arr.unwrap_type()._to_onnx_value_info(out))",
   "        arr = list(graph.requested_results.values())[0]\n        value_infos.append(arr.unwrap_type()._to_onnx_value_info(outer))\n        out = f\"__dummy_output{i}\"\n        outputs.append(arr.unwrap_type()._to_onnx_value_info(out))"),
+ ("new override: Abs gets its own infer_output_types (returns the input type without asking ONNX)", V17,
+  "    op_type = OpType(\"Abs\", \"\", 13)\n", "    def infer_output_types(self):\n        return {\"Y\": self.inputs.X.type} if self.inputs.X.type is not None else {}\n\n    op_type = OpType(\"Abs\", \"\", 13)\n"),
  ("Compress fix reverted", V17, "        if self.inputs.input.type is None or self.inputs.condition.type is None:\n            return {}\n", ""),
  ("Compress no longer asks ONNX", V17, "        self.infer_output_types_onnx()\n        if self.inputs.input.type is None", "        if self.inputs.input.type is None"),
 ]
